@@ -33,7 +33,7 @@ func init() {
 		Rule: "one case = one Start..Stop life of the real reactor under P producer and K consumer goroutines (token count, " +
 			"output capacity, seeds, feedback probability, freeze point and schedule perturbation from the input); distinct by input " +
 			"text; non-trivial when at least two calls overlapped in time and at least one insert had to wait or was turned away, " +
-			"or a feedback was issued",
+			"or a feedback was issued, or the case has rounds in which a feedback races a finish of the same seed",
 		Setup:    setupReactor,
 		Gen:      genReactorConc,
 		Exec:     execReactorConc,
@@ -62,19 +62,27 @@ func genReactorConc(r *Rng, i int, tier string) string {
 		freeze = 1 + r.Intn(seeds)
 	}
 	noise := r.Intn(4) // 0 none, 1 unknown feedback, 2 + repeated finish, 3 + two goroutines finish the same seed at once
-	return fmt.Sprintf("cap=%d ocap=%d p=%d k=%d seeds=%d fb=%d freeze=%d noise=%d sched=%d",
-		capN, ocap, p, k, seeds, fb, freeze, noise, r.Intn(1<<30))
+	// rounds of "feedback and finish of the same held seed at the same time" after the main phase
+	race := 0
+	if freeze == 0 && r.Chance(35) {
+		race = 10 + r.Intn(30)
+		if tier == "thorough" {
+			race = 20 + r.Intn(100)
+		}
+	}
+	return fmt.Sprintf("cap=%d ocap=%d p=%d k=%d seeds=%d fb=%d freeze=%d noise=%d race=%d sched=%d",
+		capN, ocap, p, k, seeds, fb, freeze, noise, race, r.Intn(1<<30))
 }
 
 func shrinkReactorConc(in string) []string {
 	kv := parseKV(in)
 	get := func(k string) int { n, _ := strconv.Atoi(kv[k]); return n }
 	mk := func(m map[string]int) string {
-		return fmt.Sprintf("cap=%d ocap=%d p=%d k=%d seeds=%d fb=%d freeze=%d noise=%d sched=%d",
-			m["cap"], m["ocap"], m["p"], m["k"], m["seeds"], m["fb"], m["freeze"], m["noise"], m["sched"])
+		return fmt.Sprintf("cap=%d ocap=%d p=%d k=%d seeds=%d fb=%d freeze=%d noise=%d race=%d sched=%d",
+			m["cap"], m["ocap"], m["p"], m["k"], m["seeds"], m["fb"], m["freeze"], m["noise"], m["race"], m["sched"])
 	}
 	base := map[string]int{}
-	for _, k := range []string{"cap", "ocap", "p", "k", "seeds", "fb", "freeze", "noise", "sched"} {
+	for _, k := range []string{"cap", "ocap", "p", "k", "seeds", "fb", "freeze", "noise", "race", "sched"} {
 		base[k] = get(k)
 	}
 	var out []string
@@ -93,6 +101,8 @@ func shrinkReactorConc(in string) []string {
 	try("p", 1)
 	try("k", 1)
 	try("noise", 0)
+	try("race", 0)
+	try("race", base["race"]/2)
 	try("fb", 0)
 	try("freeze", 0)
 	try("sched", 0)
@@ -131,6 +141,14 @@ func (t *rcThread) perturb() {
 	}
 }
 
+// callNow is call without the schedule perturbation (the racing pair is released together).
+func (t *rcThread) callNow(kind byte, it *models.Item, id int) string {
+	t.ev = append(t.ev, rcEvent{seq: rcSeq.Add(1), tid: t.tid, call: true, kind: kind, id: id})
+	r := rxCall(kind, it)
+	t.ev = append(t.ev, rcEvent{seq: rcSeq.Add(1), tid: t.tid, kind: kind, id: id, res: r})
+	return r
+}
+
 func (t *rcThread) call(kind byte, it *models.Item, id int) string {
 	t.perturb()
 	t.ev = append(t.ev, rcEvent{seq: rcSeq.Add(1), tid: t.tid, call: true, kind: kind, id: id})
@@ -150,7 +168,7 @@ func execReactorConc(in string) Result {
 	kv := parseKV(in)
 	get := func(k string) int { n, _ := strconv.Atoi(kv[k]); return n }
 	capN, ocap, P, K, seeds := get("cap"), get("ocap"), get("p"), get("k"), get("seeds")
-	fbPct, freezeAt, noise := get("fb"), get("freeze"), get("noise")
+	fbPct, freezeAt, noise, race := get("fb"), get("freeze"), get("noise"), get("race")
 	if capN < 1 {
 		capN = 1
 	}
@@ -187,7 +205,7 @@ func execReactorConc(in string) Result {
 	unknownID := atomic.Int64{}
 	unknownID.Store(1000)
 
-	threads := make([]*rcThread, P+2*K) // producers, consumers, one helper per consumer (racing finish)
+	threads := make([]*rcThread, P+2*K+2) // producers, consumers, one helper per consumer (racing finish), the racing pair
 	for i := range threads {
 		threads[i] = &rcThread{tid: i, rng: sched.Fork()}
 	}
@@ -291,12 +309,6 @@ func execReactorConc(in string) Result {
 			}
 		}
 	}
-	// quiescent state
-	tokens, table := -1, []int{}
-	if reactor.VerifAlive() {
-		tokens = reactor.VerifTokensInUse()
-		table = rxTable()
-	}
 	close(done)
 	cdone := make(chan struct{})
 	go func() { cwg.Wait(); close(cdone) }()
@@ -304,6 +316,74 @@ func execReactorConc(in string) Result {
 	case <-cdone:
 	case <-time.After(5 * time.Second):
 		hung = true
+	}
+	// A badly behaved client, many rounds: a fresh seed is inserted and received, then one goroutine
+	// feeds it back while another marks it finished, released together.  Legal outcomes: feedback
+	// accepted and finish accepted (the seed comes out once more and a second finish is refused), or
+	// finish accepted and feedback refused.  Either way the seed is gone and its token is back.
+	raceRounds := 0
+	if !hung && freezeAt == 0 && reactor.VerifAlive() {
+		ta, tb := threads[P+2*K], threads[P+2*K+1]
+		recv := func() bool {
+			select {
+			case it := <-out:
+				rid, _ := strconv.Atoi(it.GetID())
+				mu.Lock()
+				delivs = append(delivs, deliv{rcSeq.Add(1), ta.tid, rid})
+				mu.Unlock()
+				return true
+			case <-time.After(5 * time.Second):
+				return false
+			}
+		}
+		for r := 0; r < race && !hung; r++ {
+			id := 2000 + r
+			it := models.NewItem(strconv.Itoa(id), &models.URL{Raw: "http://seed.example/r"}, "")
+			it.SetSource(models.ItemSourceQueue)
+			ir := make(chan string, 1)
+			go func() { ir <- ta.callNow('I', it, id) }()
+			select {
+			case res := <-ir:
+				if res != "ROk" {
+					hung = true // every token is taken although nothing is in flight: left to the accounting monitors
+				}
+			case <-time.After(5 * time.Second):
+				hung = true
+			}
+			if hung || !recv() {
+				hung = true
+				break
+			}
+			start := make(chan struct{})
+			fr, br := make(chan string, 1), make(chan string, 1)
+			go func() { <-start; br <- tb.callNow('B', it, id) }()
+			go func() { <-start; fr <- ta.callNow('F', it, id) }()
+			close(start)
+			var fres, bres string
+			for i := 0; i < 2 && !hung; i++ {
+				select {
+				case fres = <-fr:
+				case bres = <-br:
+				case <-time.After(5 * time.Second):
+					hung = true
+				}
+			}
+			_ = fres
+			if !hung && bres == "ROk" {
+				if !recv() {
+					hung = true
+					break
+				}
+				ta.callNow('F', it, id)
+			}
+			raceRounds++
+		}
+	}
+	// quiescent state
+	tokens, table := -1, []int{}
+	if reactor.VerifAlive() {
+		tokens = reactor.VerifTokensInUse()
+		table = rxTable()
 	}
 	sdone := make(chan struct{})
 	go func() { reactor.Stop(); close(sdone) }()
@@ -384,6 +464,9 @@ func execReactorConc(in string) Result {
 	if freezeAt > 0 {
 		tags = append(tags, "freeze")
 	}
+	if raceRounds > 0 {
+		tags = append(tags, "race-fb-fin")
+	}
 	if hung {
 		tags = append(tags, "hung")
 	}
@@ -404,7 +487,7 @@ func execReactorConc(in string) Result {
 		Term: fmt.Sprintf("CC %d %s %s %d %s %s", capN, coqList(terms), coqBool(hung), tokens, coqNats(table),
 			coqList(after)),
 		Tags:       tags,
-		Nontrivial: overlap && (waited || fbs > 0),
+		Nontrivial: overlap && (waited || fbs > 0 || raceRounds > 0),
 	}
 }
 
